@@ -295,6 +295,14 @@ func judge(c Case) *vh.Violation {
 		return nil
 	}
 	vh.Class("outcome=exit-nonzero")
+	if c.Needle != "" {
+		// counted only: the property asks for "a diagnostic", it does not fix its wording
+		if strings.Contains(o.res.Both(), c.Needle) {
+			vh.Class("diagnostic-names-the-missing-interface=yes")
+		} else {
+			vh.Class("diagnostic-names-the-missing-interface=no")
+		}
+	}
 	if !hasDiagnostic(o.res) {
 		return fail(fmt.Sprintf("exit%d-silent", o.res.Exit), "exit status %d without any diagnostic", o.res.Exit)
 	}
